@@ -799,6 +799,11 @@ func c39Case(rt *rapid.T, st *vs.S, maxL, points int) {
 		prefix := p.event // process kill: nothing lost
 		if irng.Intn(3) > 0 && lo < p.event {
 			prefix = lo + irng.Intn(p.event-lo+1) // power failure: unsynced suffix lost
+			// boundary choice: everything up to the explicit state commit survived, nothing after
+			if h.commitAt >= lo && h.commitAt < p.event && irng.Intn(3) == 0 {
+				prefix = h.commitAt
+				c.Class("prefix:at-commit")
+			}
 		}
 		c.Fault()
 		nt, class := h.reopen(rt, c39Image{point: p, prefix: prefix})
@@ -869,7 +874,7 @@ func TestVerifC39EveryEvent(t *testing.T) {
 	st := vs.New("C39", t)
 	scs := c39Fixed()
 	if !vs.Thorough() {
-		scs = scs[:2]
+		scs = scs[1:3]
 	}
 	var collect *c39Collector
 	if os.Getenv("VERIF_C39_COLLECT") != "" {
@@ -891,6 +896,9 @@ func TestVerifC39EveryEvent(t *testing.T) {
 			prefixes := []int{p.event}
 			if lo < p.event {
 				prefixes = append(prefixes, lo)
+			}
+			if h.commitAt > lo && h.commitAt < p.event && (p.label == "freeze" || p.label == "end") {
+				prefixes = append(prefixes, h.commitAt) // survived exactly up to the state commit
 			}
 			for _, n := range prefixes {
 				c.Fault()
